@@ -65,6 +65,9 @@ NATIVE_UNITS = {
     "template_location_known": {"file": "src/interpreter/interpreter.rs", "source": "eval_location.rs",
                                 "modpath": "interpreter::interpreter", "test": "verif_native_template_location_known", "role": "known",
                                 "finding": "template-location"},
+    "chain_type_known": {"file": "src/interpreter/interpreter.rs", "source": "eval_location.rs",
+                         "modpath": "interpreter::interpreter", "test": "verif_native_chain_type_known", "role": "known",
+                         "finding": "comparison-decided-before-type-check"},
     "callee_location_known": {"file": "src/interpreter/interpreter.rs", "source": "eval_location.rs",
                               "modpath": "interpreter::interpreter", "test": "verif_native_callee_location_known", "role": "known",
                               "finding": "callee-body-location"},
@@ -259,7 +262,7 @@ PROPS = {
         "assumptions": ["functional oracle for the opaque evaluator: one evaluation of the test and two are not distinguished"],
     },
     "C08": {
-        "verus": ["interp_tail", "interp_eval_kind", "values_num", "valref_mut", "base_cmp", "base_pairs"], "kani": ["values"], "native": ["tail_arity_witness", "eval_kind_witness", "vector_kind_witness", "after_error_witness"],
+        "verus": ["interp_tail", "interp_eval_kind", "values_num", "valref_mut", "base_cmp", "base_pairs"], "kani": ["values"], "native": ["tail_arity_witness", "eval_kind_witness", "vector_kind_witness", "after_error_witness", "chain_type_known"],
         "level": "proof",
         "explanation": "The argument-count test is proved to hold before EVERY hand-over to apply_scheme_procedure / a builtin body in the "
                        "trampoline loop (first call and every tail call), and an unacceptable count is proved to yield the ArgumentMissMatch "
